@@ -71,9 +71,32 @@ package http3
 //@ iface (d http3.datagramStream) StreamID
 //@   modifies nothing
 
+//@ extern io.CopyN
+//@   modifies nothing
+//@ func (r *countingByteReader) Reset
+//@   props C18
+//@   ensures r.NumRead == 0
+//@   modifies r.NumRead
+//@ func parseSettingsFrame
+//@   trusted SETTINGS payload decoder (reads from the stream; not modelled); returns a frame or an error
+//@   ensures result1 != nil || result0 != nil
+//@   modifies nothing
+//@ func parseGoAwayFrame
+//@   trusted GOAWAY payload decoder (reads from the stream; not modelled); returns a frame or an error
+//@   ensures result1 != nil || result0 != nil
+//@   modifies nothing
+
 //@ func (p *frameParser) ParseNext
-//@   trusted frame parser over an io.Reader (blocking reads; unknown frame types skipped); contract: on success a non-nil frame is returned
-//@   ensures implies(result1 == nil, result0 != nil)
+//@   props C18
+//@   requires p.r != nil
+//@   ensures [frame-or-error] implies(result1 == nil, result0 != nil)
+//@   ensures [only-known-frames-returned] implies(result1 == nil, t == 0 || t == 1 || t == 4 || t == 7)
+//@   ensures [data-length] implies(result1 == nil && t == 0, typeis(result0, *dataFrame) && dyn(result0, *dataFrame).Length == l)
+//@   ensures [headers-length] implies(result1 == nil && t == 1, typeis(result0, *headersFrame) && dyn(result0, *headersFrame).Length == l)
+//@   ensures [reserved-types-abort-the-connection] iff(called("field:closeConn") >= 1, result1 != nil && called("field:closeConn") == 1 && (t == 2 || t == 6 || t == 8 || t == 9) && called("Read") % 2 == 0 && lastresult("Read", 1) == nil)
+//@   modifies nothing
+//@ loop (p *frameParser) ParseNext #0
+//@   invariant called("field:closeConn") == 0
 //@   modifies nothing
 
 //@ func (c *rawConn) CloseWithError
@@ -91,7 +114,7 @@ package http3
 
 //@ func (s *Stream) Read
 //@   props C18
-//@   requires s.datagramStream != nil && s.frameParser != nil && s.conn != nil
+//@   requires s.datagramStream != nil && s.frameParser != nil && s.frameParser.r != nil && s.conn != nil
 //@   let parsed = called("(*frameParser).ParseNext")
 //@   ensures [within-frame] implies(old(s.bytesRemainingInFrame) > 0, parsed == 0 && 0 <= result0 && result0 <= len(b) && result0 <= old(s.bytesRemainingInFrame) && s.bytesRemainingInFrame == old(s.bytesRemainingInFrame) - result0)
 //@   ensures [accounting] 0 <= result0 && result0 <= len(b) && implies(result0 > 0, called("(http3.datagramStream).Read") == 1)
@@ -122,7 +145,7 @@ package http3
 
 //@ func (r *body) Read
 //@   props C18
-//@   requires r.str != nil && r.str.datagramStream != nil && r.str.frameParser != nil && r.str.conn != nil && r.remainingContentLength >= -4611686018427387904
+//@   requires r.str != nil && r.str.datagramStream != nil && r.str.frameParser != nil && r.str.frameParser.r != nil && r.str.conn != nil && r.remainingContentLength >= -4611686018427387904
 //@   ensures [never-beyond-declared] implies(old(r.hasContentLength) && old(r.remainingContentLength) >= 0, result0 <= old(r.remainingContentLength))
 //@   ensures [accounting] 0 <= result0 && result0 <= len(b) && implies(called("(*Stream).Read") >= 1, r.remainingContentLength == old(r.remainingContentLength) - result0)
 //@   ensures [violation-reported] implies(r.hasContentLength && (r.remainingContentLength < 0 || r.remainingContentLength == 0 && r.str.bytesRemainingInFrame > 0), result1 != nil)
@@ -183,3 +206,34 @@ package http3
 //@   ensures [only-valid-names] implies(!lastresultb("ValidTrailerHeader"), len(w.trailers) == old(len(w.trailers)))
 //@   ensures [declared] implies(lastresultb("ValidTrailerHeader"), has(w.trailers, k))
 //@   modifies w.trailers, w.trailers[*]
+
+// ---------------- request construction rules (C19) ----------------
+//@ extern strings.Join
+//@   modifies nothing
+//@ extern net/url.ParseRequestURI
+//@   fresh
+//@   ensures result1 != nil || result0 != nil
+//@   modifies nothing
+//@ func extractAnnouncedTrailers
+//@   trusted reads and removes the "Trailer" header (net/http map operations, not modelled)
+//@   modifies nothing
+
+//@ func requestFromHeaders
+//@   props C19
+//@   requires sizeLimit >= 0
+//@   let h = lastresult("parseHeaders", 0)
+//@   let connect = h.Method == "CONNECT"
+//@   ensures [parse-error-propagates] implies(lastresult("parseHeaders", 1) != nil, result0 == nil && result1 != nil)
+//@   ensures [extended-connect] implies(result1 == nil && connect && h.Protocol != "", h.Scheme != "" && h.Path != "" && h.Authority != "")
+//@   ensures [plain-connect] implies(result1 == nil && connect && h.Protocol == "", h.Path == "" && h.Authority != "")
+//@   ensures [ordinary-request] implies(result1 == nil && !connect, h.Path != "" && h.Authority != "" && h.Method != "" && h.Protocol == "")
+//@   ensures [request-fields] implies(result1 == nil, result0 != nil && result0.Method == h.Method && result0.Host == h.Authority && result0.ContentLength == h.ContentLength && result0.ProtoMajor == 3)
+//@   modifies *headerFields, elems(qpack.HeaderField)
+
+//@ func updateResponseFromHeaders
+//@   props C19
+//@   requires sizeLimit >= 0 && rsp != nil
+//@   let h = lastresult("parseHeaders", 0)
+//@   ensures [status-required] implies(result == nil, h.Status != "" && rsp.ContentLength == h.ContentLength && rsp.ProtoMajor == 3)
+//@   ensures [parse-error-propagates] implies(lastresult("parseHeaders", 1) != nil, result != nil)
+//@   modifies *headerFields, elems(qpack.HeaderField), rsp.*
